@@ -425,6 +425,21 @@ example :
     (openScript .ssh toyP toyCfg first rest).outcome = .auth ∧
     (openScript .ssh toyP toyCfg first rest).closed = true := by decide
 
+/-- the bound is per open, whatever comes in between: user, password, password (the device re-asks on
+its own), user, password — the THIRD password prompt is refused with an auth error although a
+user-name prompt came in between; the device got the password exactly twice; transport closed -/
+example :
+    let first : Stage := ⟨.user, [[85]]⟩
+    let rest : List Stage := [⟨.pass, [[117, 10, 80]]⟩, ⟨.pass, [[10, 80]]⟩, ⟨.user, [[10], [85]]⟩,
+      ⟨.pass, [[117, 10, 80]]⟩, ⟨.prompt, [[10, 114, 35]]⟩]
+    wfOf .telnet toyP toyCfg first rest = true ∧
+    spec toyCfg 0 0 0 first.kind (rest.map (·.kind)) = .auth ∧
+    (openScript .telnet toyP toyCfg first rest).outcome = .auth ∧
+    (openScript .telnet toyP toyCfg first rest).closed = true ∧
+    countWrites .pass (openScript .telnet toyP toyCfg first rest).trace = 2 ∧
+    credLines (openScript .telnet toyP toyCfg first rest).trace =
+      [(.user, [117]), (.pass, [112]), (.pass, [112]), (.user, [117])] := by decide
+
 /-- ssh: failure text → connection error; silence after the password → timeout -/
 example :
     wfOf .ssh toyP toyCfg ⟨.err, [[115, 33, 10]]⟩ [] = true ∧
